@@ -79,6 +79,7 @@ def main():
                     break
     finally:
         sh('git -C /repo checkout -- .')
+        sh('git checkout -- lean/NdeVerif/Gen evidence', cwd=ROOT)   # regenerated from the patched tree: restore
     meta['checks'] = results
     meta['caught_by'] = [k for k, v in results.items() if v['rc'] == 1]
     meta['caught_with_failing_input'] = [k for k, v in results.items() if v['rc'] == 1 and not any('no-failing-input-found' in l for l in v['lines'])]
